@@ -57,6 +57,10 @@ func seqsToBlocks[T Instruction](seqs [][]T) []block[T] {
 
 func splitByAddress[T Instruction](seq []T) [][]T {
 	seqs := make([][]T, 0, 1)
+	if len(seq) == 0 {
+		return seqs
+	}
+
 	begin := 0
 
 	for i := range seq[1:] {
